@@ -58,6 +58,19 @@ Proof.
 Qed.
 Print Assumptions C12_total_tls.
 
+(* constructor wiring (generated table [server_wiring]: every `self.x = <param> or <default>`,
+   `kwargs.get('<flag>', Defaults.X)` and the identity update of every server class): whatever a
+   front-end's handlers read from their server object — context/store, framer, handler class, the
+   two flags, the identity — is what the user passed to the constructor, and the default only when
+   nothing was passed.  C17 (interchangeability) and C10 (hosted units) lean on this. *)
+Theorem C12_server_wiring : forall srv fe, In (srv, fe) servers ->
+  exists roles, assoc_s srv server_wiring = Some roles /\
+    forall role, In role (required_roles fe) ->
+      exists s, assoc_s role roles = Some s /\
+        forall A (x d : A), configured s (Some x) d = x /\ configured s None d = d.
+Proof. exact server_wiring_spec. Qed.
+Print Assumptions C12_server_wiring.
+
 (* every exception class of the framer/decoder/execute layer, every transport fault — and for
    the threaded TCP handler (bare `except:`) and asyncio (CancelledError) more than that *)
 Theorem C12_ladders_total : forall fe, catch_all_fe fe = true ->
